@@ -641,3 +641,98 @@ def r13_skipped_recursive_call(ctx):
 
 
 RULES += [r11_first_iteration_recorded, r12_parallel_wiring, r13_skipped_recursive_call]
+
+
+def r14_sorted_search(ctx, rid="C09.r14"):
+    ctx.rule(rid, "top-down call continuation: std::lower_bound / binary_search are applied only to a vector that is SORTED - sorted on "
+             "every path before, or produced by a helper that returns the output of std::set_intersection / set_difference / "
+             "set_union and not modified since; the list of arguments that the call re-defines is searched to decide which actuals "
+             "receive the callee's final input values, and a miss overwrites a returned value with the pre-call one", floor=1)
+    from ..paths import MustEvents, Unstructured
+    SEARCH = ("binary_search", "lower_bound", "upper_bound", "equal_range")
+    SETALG = ("set_intersection", "set_difference", "set_union", "set_symmetric_difference", "merge")
+    # helpers of the file whose result is the output range of a std set algorithm (hence sorted)
+    producers = set()
+    for h in ctx.db.fns(TD):
+        b = h.get("body")
+        if not b:
+            continue
+        rs = [r for r in walk(b) if r.get("k") == "ret" and r.get("v") is not None]
+        algs = [c for c in walk(b) if c.get("k") == "call" and callee(c) and callee(c)["name"] in SETALG and (callee(c).get("qn") or "").startswith("std::")]
+        if not rs or not algs:
+            continue
+        outs = set()
+        for c in algs:
+            for y in walk(c["a"][-1]) if c.get("a") else []:
+                if isinstance(y, dict) and y.get("k") == "ref" and y.get("rk") == "local":
+                    outs.add(y.get("id"))
+        if all(isinstance(strip_move(r["v"]), dict) and strip_move(r["v"]).get("id") in outs or
+               any(isinstance(y, dict) and y.get("k") == "ref" and y.get("id") in outs for y in walk(r["v"])) for r in rs):
+            producers.add(h["name"])
+    n = 0
+    seen = set()
+    for fn in ctx.db.fns(TD):
+        body = fn.get("body")
+        if not body:
+            continue
+        calls = [c for c in walk(body) if c.get("k") == "call" and callee(c) and callee(c)["name"] in SEARCH and
+                 (callee(c).get("qn") or "").startswith("std::") and c.get("a")]
+        if not calls or (fn["pk"], fn["line"]) in seen:
+            continue
+        seen.add((fn["pk"], fn["line"]))
+        decls = local_decls(body)
+
+        def container_of(e):
+            for y in walk(e):
+                if y.get("k") == "call" and callee(y) and callee(y)["name"] in ("begin", "cbegin") and y.get("o") is not None:
+                    o = strip(y["o"])
+                    if isinstance(o, dict) and o.get("k") in ("ref", "mem"):
+                        return o
+            return None
+
+        def gen(x):
+            if x.get("k") == "call" and callee(x) and callee(x)["name"] in ("sort", "stable_sort") and x.get("a"):
+                o = container_of(x["a"][0])
+                if o is not None:
+                    return ("sorted:%s" % (o.get("id") or o.get("n")),)
+            if x.get("k") == "decl" and "i" in x:
+                i = strip_move(x["i"])
+                while isinstance(i, dict) and i.get("k") in ("ctor", "construct") and len(i.get("a", [])) == 1:
+                    i = strip_move(i["a"][0])
+                if isinstance(i, dict) and i.get("k") == "call" and callee(i) and callee(i)["name"] in producers:
+                    return ("sorted:%s" % x.get("id"),)
+            return ()
+
+        def kill(x):
+            if x.get("k") == "call" and callee(x) and callee(x)["name"] in ("push_back", "emplace_back", "insert", "emplace", "operator[]", "swap", "reverse") \
+                    and x.get("o") is not None:
+                o = strip(x["o"])
+                if isinstance(o, dict) and o.get("k") in ("ref", "mem"):
+                    return ("sorted:%s" % (o.get("id") or o.get("n")),)
+            return ()
+        try:
+            fl = MustEvents(gen, kill)
+            fl.run(body)
+        except Unstructured:
+            ctx.undecided("%s: unstructured control flow" % fn["name"], fn, body, rid=rid)
+            continue
+        for c in calls:
+            n += 1
+            o = container_of(c["a"][0])
+            st = fl.at.get(id(c)) or frozenset()
+            t = ((o or {}).get("TC") or (o or {}).get("T") or "")
+            if o is not None and ("sorted:%s" % (o.get("id") or o.get("n"))) in st:
+                ctx.ok("%s: %s on a sorted vector" % (fn["name"], callee(c)["name"]), fn, c, rid=rid)
+            elif o is not None and ("std::set" in t or "std::map" in t):
+                ctx.ok("%s: %s on an ordered container" % (fn["name"], callee(c)["name"]), fn, c, rid=rid)
+            else:
+                ctx.bad("%s applies std::%s to `%s`, which is not known to be sorted (filled in call-site order): for `(y, x) := f(x, y)` the "
+                        "search misses the re-defined argument x, the continuation unifies x with the callee's final INPUT value and the "
+                        "caller goes on with x = 1 instead of the returned 11 - a failing assertion after the call is reported safe"
+                        % (fn["name"], callee(c)["name"], src(o)[:30] if o is not None else "?"), fn, c,
+                        sig="search-on-unsorted-vector:%s" % fn["name"], rid=rid)
+    if n == 0:
+        ctx.fail("rule %s: no binary search found in the top-down analyzer" % rid)
+
+
+RULES += [r14_sorted_search]
